@@ -131,6 +131,32 @@ func (p *Party) Sync() error {
 	}
 }
 
+// ProbeReservations checks that nothing is still reserved in the wallet: it
+// funds a scratch transaction with everything Balance() reports as spendable
+// (plus, with useUnconfirmed, as unconfirmed) and releases it again. Locks on
+// unconfirmed outputs are invisible to Balance().Spendable and
+// SpendableOutputs, but they make this funding fail. It returns "" when the
+// whole amount can be funded.
+func (p *Party) ProbeReservations(useUnconfirmed bool) string {
+	b, err := p.W.Balance()
+	if err != nil {
+		return "Balance: " + err.Error()
+	}
+	amount := b.Spendable
+	if useUnconfirmed {
+		amount = amount.Add(b.Unconfirmed)
+	}
+	if amount.IsZero() {
+		return ""
+	}
+	var txn types.V2Transaction
+	if _, _, err := p.W.FundV2Transaction(&txn, amount, useUnconfirmed); err != nil {
+		return fmt.Sprintf("the wallet reports %v spendable and %v unconfirmed, but funding that amount (useUnconfirmed=%v) fails: %v", b.Spendable, b.Unconfirmed, useUnconfirmed, err)
+	}
+	p.W.ReleaseInputs(nil, []types.V2Transaction{txn})
+	return ""
+}
+
 // Addr is the wallet address.
 func (p *Party) Addr() types.Address { return p.W.Address() }
 
